@@ -101,7 +101,15 @@ def clause_ab(ctx: Context, idx, reg) -> None:
     imp = bb.functions.get("_get_instruction_params")
     if exp is None or imp is None:
         raise AnalysisError("anchor vanished: Blackbird export/import helpers")
-    premise = "params.values()" in norm(exp.node) and "inspect.signature" in norm(imp.node) and "zip(" in norm(imp.node)
+    def with_helpers(f) -> str:
+        # the text of the function and of the module-level helpers it calls (a helper extraction keeps the premise)
+        txt = norm(f.node)
+        for c in ast.walk(f.node):
+            if isinstance(c, ast.Call) and isinstance(c.func, ast.Name) and c.func.id in bb.functions and c.func.id != f.name:
+                txt += "\n" + norm(bb.functions[c.func.id].node)
+        return txt
+
+    premise = "params.values()" in with_helpers(exp) and "inspect.signature" in with_helpers(imp) and "zip(" in with_helpers(imp)
     ctx.obligation("C18a", "piquasso.core._blackbird|positional-premise", premise)
     if not premise:
         raise AnalysisError("C18a: Blackbird export/import no longer use params.values()/signature zip; the rule's premise changed (undecided)")
